@@ -201,6 +201,26 @@ func init() {
 			}
 			return sb.String()
 		}
+		// long preambles in which every line mentions the placeholders of the lines before it: reading
+		// and printing must stay proportional to the text (a value that could refer to earlier values
+		// would double in size with every line)
+		chainKinds := []string{"($P%d $P%d)", "[$P%d {:k $P%d}]", "(list $P%d $P%d $P0)", "$P%d ;; $P%d"}
+		chainText := func(i int64) string {
+			kind := chainKinds[i%int64(len(chainKinds))]
+			depth := []int{8, 24, 48, 96}[(i/int64(len(chainKinds)))%4]
+			crlf := (i/int64(len(chainKinds))/4)%2 == 1
+			nl := "\n"
+			if crlf {
+				nl = "\r\n"
+			}
+			var sb strings.Builder
+			sb.WriteString(";; $P0 (1 2)" + nl)
+			for k := 1; k < depth; k++ {
+				sb.WriteString(fmt.Sprintf(";; $P%d ", k) + fmt.Sprintf(kind, k-1, k-1) + nl)
+			}
+			sb.WriteString(nl + fmt.Sprintf("(list $P%d $P%d)", depth-1, depth-1) + nl)
+			return sb.String()
+		}
 		var tier string
 		mk := func(name, bounds string, n func(string) int64, text func(int64) string) *vf.Family {
 			return &vf.Family{
@@ -225,6 +245,9 @@ func init() {
 				mk("preamble", fmt.Sprintf("all sequences of <=3 lines over %d preamble-ish lines x %d bodies", len(c05PreLines), len(c05PreBodies)),
 					func(t string) int64 { return seqSpace{len(c05PreLines), 3}.size() * int64(len(c05PreBodies)) },
 					preText),
+				mk("chained-preambles", "preambles of 8, 24, 48 and 96 lines in which every line's value mentions the previous placeholders twice (4 value shapes, LF and CRLF): read and printed within the watchdog",
+					func(t string) int64 { return int64(len(chainKinds)) * 4 * 2 },
+					chainText),
 			},
 		}
 	})
